@@ -458,6 +458,20 @@ def check_forwarding(ctx):
                     sig="classical-grad-data", required="the entry-wise derivative of the evaluated array")
 
 
+def check_bubble_chain_rule(ctx):
+    """R15.1: the gradient of a tensor bubble f(g) is f'(g) * g' entry-wise: copy the input, apply the bubble of the derivative of f AROUND THE INSIDE next to the
+    gradient of the inside, multiply"""
+    m = ctx.model
+    q = TEN + ".Bubble.grad"
+    fn = m.func(q)
+    ctx.analysed(q)
+    r = ret_expr(fn.body)
+    var = fn.args.args[1].arg
+    shape.match(ctx, "R15.1", q + ":chain-rule", r, "Spider(1, 2, dim=self.dom) >> self.inside.bubble(func=lambda x: self.func(tmp).diff(tmp).subs(tmp, x), drawing_name=name.format(self.drawing_name, var)) "
+                "@ self.inside.grad(var) >> Spider(2, 1, dim=self.cod)", {var: "var"}, mod=TEN, node=fn, sig="bubble-chain-rule",
+                required="copy >> (bubble of f' around the inside) @ (gradient of the inside) >> multiply: f'(g) * g'")
+
+
 def check(ctx):
     ctx.rule("R15.1", "product rule: grad = head' >> tail + head >> tail' with recursion on the tail; empty sum without dependence; jacobians in the order of the variables")
     ctx.rule("R15.2", "totality: every symbol-carrying box class has a grad guarded by the free-symbol test; unsupported modes raise NotImplementedError")
@@ -470,6 +484,7 @@ def check(ctx):
     check_scalars(ctx)
     check_spiders(ctx)
     check_forwarding(ctx)
+    check_bubble_chain_rule(ctx)
     ctx.floor("R15.5", 13)
     ctx.floor("R15.1", 8)
     ctx.floor("R15.2", 12)
